@@ -378,12 +378,12 @@ def rule_key_tables(ctx, m):
                       "dict key '%s' is filled from %s" % (k, fmt(v)))
     # c_kwargs: each local is derived from the same-named attribute
     f = dtw.funcs['DTWSettings.c_kwargs']
-    for s in f.body:
-        if s.k == 'assign' and s.target[0] == 'var':
-            attrs = {sub[2] for sub in walk_expr(s.value) if sub[0] == 'attr' and sub[1] == ('var', 'self')}
-            if attrs:
-                ctx.check(s.target[1] in attrs, 'R-TAB', dtw.path, 'DTWSettings.c_kwargs', '%s = %s' % (s.target[1], fmt(s.value)),
-                          'local `%s` is computed from self.%s' % (s.target[1], sorted(attrs)), line=s.line)
+    from .tables import ckwargs_entries
+    for key_, val_, line_ in ckwargs_entries(f):
+        attrs = {sub[2] for sub in walk_expr(val_) if sub[0] == 'attr' and sub[1] == ('var', 'self')}
+        if attrs:
+            ctx.check(key_ in attrs, 'R-TAB', dtw.path, 'DTWSettings.c_kwargs', '%s computed from its attribute' % key_,
+                      "entry '%s' is computed from self.%s" % (key_, sorted(attrs)), line=line_)
     # pyx accepted keys
     pyx = m.pyx('dtw_cc')
     init = pyx.funcs.get('DTWSettings.__init__')
